@@ -144,6 +144,7 @@ class Body:
         self._dom = None
         self._pdom = None
         self._defs = None
+        self._cenv = None
 
     def __repr__(self):
         return "<Body %s>" % self.path
@@ -359,9 +360,31 @@ class Body:
             return self.place_value(operand["pl"], depth, seen)
         return ("unknown",)
 
+    def coroutine_env_locals(self):
+        """Locals that hold `&mut <this coroutine>` (copies of `_1.pointer` of the pinned self of an async block)."""
+        if getattr(self, "_cenv", None) is None:
+            env = set()
+            if self.kind == "closure" and self.arg_count >= 1 and self.locals[1]["ty"].startswith("std::pin::Pin<&mut {async"):
+                for l, ds in self.defs().items():
+                    for d in ds:
+                        if d[0] == "stmt" and d[3]["k"] == "assign" and not d[3]["pl"]["p"] and d[3]["rv"]["k"] == "use":
+                            o = d[3]["rv"]["op"]
+                            if o["k"] in ("copy", "move") and o["pl"]["l"] == 1 and len(o["pl"]["p"]) == 1 and \
+                               isinstance(o["pl"]["p"][0], dict) and o["pl"]["p"][0].get("n") == "pointer":
+                                env.add(l)
+            self._cenv = env
+        return self._cenv
+
     def place_value(self, pl, depth=0, seen=frozenset()):
-        base = self.local_value(pl["l"], depth, seen)
-        for e in pl["p"]:
+        # captured variable of an async block: (*env).<i> without a variant downcast
+        if pl["l"] in self.coroutine_env_locals() and len(pl["p"]) >= 2 and pl["p"][0] == "*" and \
+           isinstance(pl["p"][1], dict) and "f" in pl["p"][1] and pl["p"][1]["f"] < len(self.captures):
+            base = ("upvar", self.captures[pl["p"][1]["f"]]["var"])
+            rest = pl["p"][2:]
+        else:
+            base = self.local_value(pl["l"], depth, seen)
+            rest = pl["p"]
+        for e in rest:
             if e == "*":
                 # &x then *  cancels
                 if base[0] == "ref":
